@@ -17,6 +17,9 @@ func init() {
 		run: func(g *Gen, c int) ([]string, []string, bool) {
 			r := g.r
 			var viol []string
+			if c == 0 && startupViolation != "" {
+				viol = append(viol, startupViolation)
+			}
 			ref := map[string]string{}
 			for _, n := range builtinNames {
 				ref[n] = builtinDecor[n]
